@@ -55,14 +55,20 @@ class CrlfSpec:
 def main(tier, seed):
     chk = Check('C13', tier, seed)
     jobs = int(os.environ.get('VERIF_JOBS', '16'))
-    oracle = vfsrun.setup(chk)
     try:
-        for n in range(0, 6 if tier == 'quick' else 8):
+        oracle = vfsrun.setup(chk)
+    except Exception as e:
+        # the overlay oracle wraps convert::from_range / Vfs::change_file_content / LineMap through their current signatures; a refactor of that
+        # interface leaves the kernels without a driver (inconclusive, never a pass) - the interface-independent layers below still run
+        oracle = None
+        chk.inconclusive.append('the overlay oracle of the edit kernels does not build against the current tree (interface of vfs.rs / convert.rs changed?): %s' % str(e)[-300:].replace('\n', ' '))
+    try:
+        for n in (range(0, 6 if tier == 'quick' else 8) if oracle else ()):
             res, complete = explore.explore(crlf_factory, (n,), jobs=jobs)
             chk.add_run('didOpen normalisation doc=%d bytes (CR/LF/CRLF)' % n, res, complete, {'doc_bytes': n}, nontrivial_classes=lambda c: c == 'with-cr')
             vfsrun.confirm_edit(chk, res, oracle, 'didOpen of a %d-byte document' % n, ['C13'])
         done = set()
-        for (n, k, edits) in BOUNDS[tier]:
+        for (n, k, edits) in (BOUNDS[tier] if oracle else ()):
             for nn in range(0, n + 1):
                 for kk in range(0, k + 1):
                     if (nn, kk) != (n, k) and edits > 1:
@@ -77,7 +83,12 @@ def main(tier, seed):
                     vfsrun.confirm_edit(chk, res, oracle, 'doc=%d ins=%d edits=%d' % (nn, kk, edits), ['C13'])
                     vfsrun.validate_edit(chk, res, oracle, 'doc=%d ins=%d x%d' % (nn, kk, edits))
     finally:
-        oracle.close(); vfsk.W.cleanup()
+        if oracle:
+            oracle.close()
+        vfsk.W.cleanup()
+    # (e) native edit layer: enumerated edit scenarios against the real binary, independent of every internal interface
+    from . import editk
+    editk.part(chk, tier, seed, jobs)
     # (c) the batch hand-over to the analysis: ide::Change::apply
     from . import changek
     changek.part(chk, tier, jobs)
@@ -88,7 +99,8 @@ def main(tier, seed):
         chk.violation('didOpen:disk-vs-editor', 'fixture', 'real binary: ' + p_[:700], {'kind': 'disk-vs-editor'}, confirmed=True)
     if not probs:
         chk.validated += 4
-    chk.assumptions += vfsrun.ASSUMPTIONS + ['part d (native scenario, real binary, not a solver verdict): files on disk differ from the text of didOpen - first document of a package that is not loaded yet, second document, an edit, a document of a nested package; after every step the analysed text of every open document is the editor\'s',
+    chk.assumptions += vfsrun.ASSUMPTIONS + ['part e (native edit layer, real binary, not a solver verdict): every one-change scenario on documents of <= 3 (thorough 4) symbols over {a, b, LF, U+00E9, U+1F600, CRLF}, two-change scenarios (one notification / two notifications) with every first change and a seeded sample of second changes, and seeded three-change scenarios on documents of 3-6 symbols; a reference LSP client applies the edits, the text the server analyses (glas/syntaxTree) must be the client\'s with CRs removed',
+                                            'part d (native scenario, real binary, not a solver verdict): files on disk differ from the text of didOpen - first document of a package that is not loaded yet, second document, an edit, a document of a nested package; after every step the analysed text of every open document is the editor\'s',
                                             'part c: ide::Change::apply runs on its real MIR with the salsa database havoc\'d; k <= 3 (thorough 4) queued contents over 2 symbolic file ids; the obligation is that the last set_file_content for every file carries the last queued content; replayed against the real server with a multi-change notification',
                                             'Server::on_did_change\'s plumbing around the per-change calls (from_range + change_file_content) is covered structurally by C15, not here',
                                             'CR is assumed to occur only immediately before LF (the property: line breaks are LF or CRLF)']
@@ -103,6 +115,12 @@ def replay(path):
         probs = lsp_replay.disk_vs_editor_scenario(lsp_replay.build_binary())
         print(json.dumps(probs, indent=1))
         return 1 if probs else 0
+    if d.get('cex', {}).get('kind') == 'edit-scenario':
+        from mirsym import lsp_replay
+        from . import editk
+        bad = editk.replay_one(lsp_replay.build_binary(), d['cex'])
+        print(json.dumps(bad, indent=1, ensure_ascii=False))
+        return 1 if bad else 0
     if d.get('site') == 'change-apply':
         from mirsym import lsp_replay
         c = d['cex']
